@@ -560,6 +560,165 @@ def _duration_case(seed):
     return n, bad
 
 
+def _real_profile(rnd):
+    """Hourly ground loads (W, extraction positive) of one non-leap year with a day/night shape, a seasonal swing, and 'weather events':
+    single-day snaps placed on the LAST day of a month (so the next month's two-day window can see a larger load than its own peak when
+    its peak falls on day 0), on first days, and months without one direction."""
+    import math  # noqa: PLC0415
+
+    kind = rnd.choice(["mixed", "mixed", "heating", "cooling"])
+    amp_h, amp_c = rnd.uniform(8e3, 40e3), rnd.uniform(8e3, 40e3)
+    prof = [0.0] * 8760
+    for h in range(8760):
+        season = math.cos(2 * math.pi * h / 8760.0)           # +1 mid-winter
+        day = 0.5 + 0.5 * math.cos(2 * math.pi * ((h % 24) - 15) / 24.0)
+        x = 0.0
+        if kind in ("mixed", "heating") and season > -0.3:
+            x += amp_h * (season + 0.3) / 1.3 * (1.0 - 0.5 * day) * rnd.uniform(0.7, 1.0)
+        if kind in ("mixed", "cooling") and season < 0.3:
+            x -= amp_c * (0.3 - season) / 1.3 * (0.4 + 0.6 * day) * rnd.uniform(0.7, 1.0)
+        prof[h] = x
+    events = []
+    for _ in range(rnd.randrange(2, 6)):
+        m = rnd.randrange(2, 13)                               # month whose day 0 carries that month's peak
+        direction = rnd.choice([1, -1])
+        s = month_start_h(m)
+        mx_prev = max(abs(v) for v in prof[s - 24 * days_of(m - 1):s]) + 1.0
+        base = max(max(direction * v for v in prof[s:month_start_h(m + 1)]), 2e3)
+        # month m: peak on day 0; previous month's last day: an even larger load of the same direction
+        prof[s + rnd.randrange(6, 20)] = direction * base * 1.25
+        prof[s - 24 + rnd.randrange(4, 22)] = direction * max(base * rnd.uniform(1.6, 2.4), mx_prev)
+        events.append((m, direction))
+    if rnd.random() < 0.4:                                     # a month with no load at all
+        m = rnd.randrange(3, 12)
+        for h in range(month_start_h(m), month_start_h(m + 1)):
+            prof[h] = 0.0
+    return prof, kind, events
+
+
+def _real_profile_case(seed):
+    """B2 for C06-C08 on REAL hourly profiles with the REAL peak-duration physics: the constructor's arrays are judged against quantities
+    computed here from the hourly profile alone."""
+    import warnings  # noqa: PLC0415
+    from types import SimpleNamespace  # noqa: PLC0415
+
+    import numpy as np  # noqa: PLC0415
+    from scipy.interpolate import interp1d  # noqa: PLC0415
+
+    from .p_numeric import _mk_real_ghe, eft_ref  # noqa: PLC0415
+
+    import_repo()
+    import ghedesigner.ground_loads as ghl  # noqa: PLC0415
+    from ghedesigner.constants import TWO_PI  # noqa: PLC0415
+
+    rnd = random.Random(seed)
+    out = {"C06": [], "C07": [], "C08": [], "n": 0, "cross_month": 0}
+    with warnings.catch_warnings():
+        warnings.simplefilter("ignore")
+        g = _mk_real_ghe(1, 2, rnd.choice([70.0, 100.0, 130.0]), soil_k=rnd.choice([1.6, 2.4, 3.1]), pipe=rnd.choice(["single", "double"]))
+        h0 = g.hybrid_load
+        ts, gsts = h0.radial_numerical.t_s, h0.radial_numerical.g_sts
+        rb = h0.bhe.calc_effective_borehole_resistance()
+        tpk = TWO_PI * h0.bhe.soil.k
+        for _ in range(3):
+            prof, kind, events = _real_profile(rnd)
+            M = rnd.choice([12, 24, 30, 36])
+            try:
+                hl = ghl.HybridLoad(list(prof), h0.bhe, h0.radial_numerical, SimpleNamespace(start_month=1, end_month=M))
+            except Exception as ex:  # noqa: BLE001
+                out["C07"].append(f"HybridLoad raised {type(ex).__name__}: {ex} ({kind} profile, events {events})")
+                continue
+            out["n"] += 1
+            rej = [max(-x, 0.0) / 1000.0 for x in prof]
+            ext = [max(x, 0.0) / 1000.0 for x in prof]
+            per = {}
+            for moy in range(1, 13):
+                s, e = month_start_h(moy), month_start_h(moy + 1)
+                for name, arr, durs in (("rejection", rej, hl.monthly_peak_cl_duration), ("extraction", ext, hl.monthly_peak_hl_duration)):
+                    seg = arr[s:e]
+                    pk, tot = max(seg), sum(seg)
+                    avg = tot / len(seg)
+                    day = seg.index(pk) // 24
+                    per[(moy, name)] = (pk, tot, day)
+                    d_code = float(durs[moy])
+                    if pk == 0.0:
+                        continue
+                    end = s + (day + 1) * 24
+                    two_day = [0.0] + [arr[(end - 48 + j) % 8760] for j in range(48)]
+                    mx2 = max(two_day)
+                    if mx2 > pk + 0.1:
+                        out["cross_month"] += 1
+                    scale_pk = mx2 if mx2 > pk + 0.1 else pk
+                    t = np.arange(1, 49, dtype=float)
+                    q_peak = np.full(48, scale_pk - avg)
+                    q_nom = np.array([(two_day[i] - avg) / scale_pk * two_day[i] for i in range(1, 49)])
+                    dt_peak = np.concatenate(([0.0], eft_ref(q_peak, t, gsts, ts, tpk, 1.0, 1, 0.0, rb, 1e300, 1.0)))
+                    dt_nom = np.concatenate(([0.0], eft_ref(q_nom, t, gsts, ts, tpk, 1.0, 1, 0.0, rb, 1e300, 1.0)))
+                    mx = float(dt_nom.max())
+                    d_ref = float(interp1d(dt_peak, np.arange(49, dtype=float), fill_value="extrapolate")(mx)) if mx > 0 else 1e-6
+                    where = f"{name} peak of month {moy} (day {day}, {pk:.3f} kW; the two-day window peaks at {mx2:.3f} kW; {kind} profile)"
+                    if not (0.0 < d_code <= 48.0 + 1e-9):
+                        out["C07"].append(f"peak duration {d_code!r} h is outside (0, 48] for the {where}")
+                    elif abs(d_code - d_ref) > 1e-6 * max(1.0, abs(d_ref)):
+                        out["C07"].append(f"peak duration {d_code!r} h, the Cullin-Spitler definition gives {d_ref!r} h for the {where}")
+            # the sequence itself
+            hours = [float(x) for x in hl.hour]
+            loads = [float(x) for x in hl.load]
+            if len(hours) < 3 or hours[0] != 0.0 or hours[1] != 0.0:
+                out["C08"].append(f"the hybrid axis does not start at hour 0 ({hours[:3]})")
+                continue
+            if abs(hours[-1] - month_start_h(M + 1)) > 1e-9:
+                out["C08"].append(f"the hybrid axis ends at hour {hours[-1]!r}, the {M}-month horizon ends at {month_start_h(M + 1)}")
+            pos = 2
+            for m in range(1, M + 1):
+                moy = ((m - 1) % 12) + 1
+                e_h = month_start_h(m + 1)
+                energy, prev, vals, closed = 0.0, float(month_start_h(m)), [], False
+                ok_order = True
+                while pos < len(hours):
+                    t_, q = hours[pos], loads[pos]
+                    pos += 1
+                    energy += q * (t_ - prev)
+                    ok_order = ok_order and t_ > prev
+                    prev = t_
+                    vals.append(q)
+                    if abs(t_ - e_h) < 1e-6 and len(vals) >= 1 and (pos == len(hours) or hours[pos] > e_h - 1e-6):
+                        closed = True
+                        break
+                if not closed:
+                    out["C08"].append(f"no breakpoint at the end of month {m} (hour {e_h}) of a {M}-month horizon ({kind} profile)")
+                    break
+                pkc, totc, dayc = per[(moy, "rejection")]
+                pkh, toth, dayh = per[(moy, "extraction")]
+                ipf = m < 13 or m > M - 12
+                first_clamped = m == 1 and (dayc <= 1 or dayh <= 1)
+                want = totc - toth
+                rate = max(abs(v) for v in vals)
+                if abs(energy - want) > 1e-8 * max(abs(totc) + abs(toth), 1.0) + 2e-6 * rate and not first_clamped:
+                    out["C06"].append(f"month {m} of {M}: the hybrid sequence integrates to {energy!r} kWh, the hourly profile to {want!r} kWh ({kind} profile)")
+                for pk, sign, name in ((pkc, 1.0, "rejection"), (pkh, -1.0, "extraction")):
+                    has = any(v == sign * pk for v in vals) if pk > 0 else False
+                    if ipf and pk > 0 and not has:
+                        out["C07"].append(f"month {m} of {M} has no pulse of its {name} peak {pk!r} kW (loads {vals})")
+                if not ipf and len(vals) != 1:
+                    out["C07"].append(f"month {m} of {M} lies between the peak-retention years and carries {len(vals)} segments")
+    return out
+
+
+def real_profiles(chk: Check, pid: str):
+    seeds = [chk.seed * 29 + i for i in range(16 if tier() == "quick" else 160)]
+    n = cross = 0
+    for r in parallel_map(_real_profile_case, seeds):
+        n += r["n"]
+        cross += r["cross_month"]
+        for b in r[pid][:2]:
+            chk.violation(f"{pid} (real hourly profile, real peak-duration physics): {b}", {})
+    chk.note("real_profiles_through_real_HybridLoad", n)
+    chk.note("real_profiles_cross_month_windows", cross)
+    chk.traces += n
+    chk.evaluations += n
+
+
 def duration_definition(chk: Check):
     seeds = [chk.seed * 17 + i for i in range(8 if tier() == "quick" else 64)]
     tot = 0
@@ -587,6 +746,7 @@ def run(pid: str) -> int:
     if pid == "C07":
         two_day_windows(chk)
         duration_definition(chk)
+    real_profiles(chk, pid)
     # is the listed finding F14 still present on the model?  (a violated F14Present means it is)
     t = tier()
     mod, consts = mc(input_classes(t), horizons(t), FIXED)
